@@ -30,6 +30,10 @@ def run(ctx, crate):
     rule_force_is_constant(ctx, crate)
     rule_limiter_whole_duration(ctx, crate)
     rule_time_source_is_clock(ctx, crate)
+    # "a continuously updated bar is never more than one refresh interval plus 1 ms stale": updates are handed to the steady ticker only
+    # while its thread really runs (a Ticker left in the slot by an exited thread must not swallow them)
+    from .c08 import rule_manual_tick_gated
+    rule_manual_tick_gated(ctx, crate)
     # "skipped draws lose nothing": a member's rendering is refreshed before the MultiProgress limiter decides
     from .c02 import rule_multi_arm_unconditional
     rule_multi_arm_unconditional(ctx, crate)
